@@ -26,6 +26,12 @@ InputTypes ==
                               IFd("many", <<"L", "R">>, "Int"), IFd("match", <<>>, "Color"),
                               IFd("legacy_id", <<>>, "ID"), IFd("userID", <<>>, "Int"), IFd("URL", <<>>, "String") >>] ]
 
+\* schema default values (`type: Int! = 25`): a default lets the SERVER fill in an omitted member; it changes
+\* neither the member's type nor what the client may send, so a non-null member stays non-null
+FieldDefaults == << [type |-> "Filter", field |-> "type", text |-> "25"],
+                    [type |-> "Filter", field |-> "minAge", text |-> "18"],
+                    [type |-> "Filter", field |-> "snake_case", text |-> "true"] >>
+
 EnumValues == [Color |-> <<"RED", "GREEN", "blue", "type">>]
 Bases == {"Int", "Float", "String", "Boolean", "ID", "Date", "Color", "Filter", "By"}
 IsInputObject(b) == b \in DOMAIN InputTypes
@@ -67,8 +73,11 @@ EvalIn(q, base, path, ch, fuel) ==
       isList == inner # <<>>
       vary == fuel >= FlipFuel
       nullPos == IF vary /\ nullable THEN {P(path, Alt("null", "", Null))} ELSE {}
+                 \* an INVALID assignment: null at a non-null position (must not be expressible, see Vectors.valid)
+                 \cup IF vary /\ ~nullable THEN {P(path, Alt("badnull", "", Null))} ELSE {}
   IN
-  IF nullable /\ (a.a = "null" \/ (fuel = 0 /\ a.a = "default" /\ (isList \/ IsInputObject(base))))
+  IF a.a = "badnull" THEN Res(Null, Null, Null, FALSE, {})
+  ELSE IF nullable /\ (a.a = "null" \/ (fuel = 0 /\ a.a = "default" /\ (isList \/ IsInputObject(base))))
   THEN Res(Null, Null, Null, TRUE, {})
   ELSE IF isList THEN
      LET n == IF a.a = "len" THEN (CASE a.x = "0" -> 0 [] a.x = "1" -> 1 [] OTHER -> 3)
@@ -137,11 +146,12 @@ EvalVars(decls, ch) ==
 
 Vectors(decls) ==
   LET base == EvalVars(decls, <<>>)
-  IN  {[path |-> "", alt |-> NoAlt, full |-> base.full, wire |-> base.wire, skip |-> base.skip]} \cup
+  IN  {[path |-> "", alt |-> NoAlt, valid |-> TRUE, full |-> base.full, wire |-> base.wire, skip |-> base.skip]} \cup
       {LET r == EvalVars(decls, p.path :> p.alt)
-       IN  [path |-> p.path, alt |-> p.alt, full |-> r.full, wire |-> r.wire, skip |-> r.skip] : p \in base.pos} \cup
+       IN  [path |-> p.path, alt |-> p.alt, valid |-> p.alt.a # "badnull",
+            full |-> r.full, wire |-> r.wire, skip |-> r.skip] : p \in base.pos} \cup
       \* everything that can be None is None at once
       {LET allNull == [x \in {p.path : p \in {y \in base.pos : y.alt.a = "null"}} |-> Alt("null", "", Null)]
            r == EvalVars(decls, allNull)
-       IN  [path |-> "*", alt |-> Alt("null", "all", Null), full |-> r.full, wire |-> r.wire, skip |-> r.skip]}
+       IN  [path |-> "*", alt |-> Alt("null", "all", Null), valid |-> TRUE, full |-> r.full, wire |-> r.wire, skip |-> r.skip]}
 =============================================================================
